@@ -226,6 +226,7 @@ func sqlEndToEnd(c *fw.Ctx) {
 				c.Violation("sql/orderby/composite", "ORDER BY s, f through the composite index is not lexicographic", nil)
 			}
 		}
+		sqlConversions(c, eng, c.Rand(fmt.Sprintf("c15/sqlconv/%d", round)), 400)
 		st.Close()
 	}
 }
